@@ -121,6 +121,10 @@ func (b *Blocks) handleGetBlock(w http.ResponseWriter, req *http.Request) error 
 func (b *Blocks) isTrunk(blkID thor.Bytes32, blkNum uint32) (bool, error) {
 	idByNum, err := b.repo.NewBestChain().GetBlockID(blkNum)
 	if err != nil {
+		// block number above the best chain's height (scenario 1): not on trunk
+		if b.repo.IsNotFound(err) {
+			return false, nil
+		}
 		return false, err
 	}
 	return blkID == idByNum, nil
